@@ -88,7 +88,12 @@ func passwordOf(i int) []byte { return []byte(fmt.Sprintf("operator-password-%d"
 func New(cfg Config) (*World, error) {
 	w := &World{N: cfg.N, Root: cfg.Root, Seed: cfg.Seed, Board: NewBoard(), Mnemonics: cfg.Mnemonics, HotSalt: cfg.HotSalt, PasswordSuffix: cfg.PasswordSuffix}
 	for i := 0; i < cfg.N; i++ {
-		name := fmt.Sprintf("node_%d", i)
+		// default names: their lexicographic order is the reverse of the participant order, one of them is not ASCII
+		// and one contains a space - user names are free text, and nothing may depend on how they sort
+		name := fmt.Sprintf("%c node_%d", 'z'-rune(i), i)
+		if i == 1 {
+			name = fmt.Sprintf("ÿ-узел_%d", i)
+		}
 		if i < len(cfg.Names) {
 			name = cfg.Names[i]
 		}
